@@ -11,12 +11,20 @@
     otherwise; [C20_concat_total] / [C20_join_total] / [C20_from_iter_total] show that the panic
     cannot happen: every [&str] is valid UTF-8 and every [char] is a scalar value.
 
-    NOT YET PROVED: nothing of the plan of DESIGN section 4 is missing.  Outside the plan and
-    not proved here: that the iterator-DSL front end of [string::from_iter!] yields the items
+    [utf8_ok] (Model/Utf8Check.v) is the validity test used throughout this file;
+    [C20_utf8_ok_is_utf8] proves that it is the same function as the independent
+    specification [Spec.Utf8.utf8] (segmentation by the rows of Unicode Table 3-7, the
+    vocabulary of C01/C03/C07), and [C20_concat_valid_spec] / [C20_encode_utf8_valid_spec]
+    restate the validity theorems with it.
+
+    NOT YET PROVED: nothing of the plan of DESIGN section 4 is missing; the agreement of the
+    two UTF-8 validity tests, formerly only tied together by the correspondence runs, is now
+    proved ([C20_utf8_ok_is_utf8]).  Outside the plan and not proved here: that the iterator-DSL front end of [string::from_iter!] yields the items
     of the source in order (property C10/C11's subject; [items] is taken as given), and the
     behaviour when the total length does not fit [usize] (hypothesis [.. < 2 ^ w]). *)
 From KV Require Import Base.Prelude Model.Utf8 Model.Utf8Check Model.Concat Model.CStr
-  Spec.Concat Proofs.ConcatProofs Proofs.Utf8CheckProofs Proofs.CStrProofs.
+  Spec.Concat Proofs.ConcatProofs Proofs.Utf8CheckProofs Proofs.CStrProofs
+  Proofs.Utf8EquivProofs.
 
 (* ------------------------------------------------------------------ two-pass agreement *)
 
@@ -104,6 +112,24 @@ Proof. exact utf8_ok_intercalate. Qed.
 (** [encode_utf8] of a scalar value is well-formed, so char pieces / separators pass too *)
 Theorem C20_encode_utf8_valid : forall c, is_scalar c -> utf8_ok (encode_m c) = true.
 Proof. exact utf8_ok_encode. Qed.
+
+(** [utf8_ok] is the well-formedness test of the specification ([Spec.Utf8.utf8], the one
+    C01/C03/C07 are stated with): the two independently written tests agree on EVERY list
+    of integers (not only on lists of bytes) *)
+Theorem C20_utf8_ok_is_utf8 : forall l, utf8_ok l = KV.Spec.Utf8.utf8 l.
+Proof. exact utf8_ok_is_utf8. Qed.
+
+(** [C20_concat_utf8] / [C20_join_utf8] / [C20_encode_utf8_valid] in that vocabulary *)
+Theorem C20_concat_valid_spec :
+  (forall ss, Forall (fun s => KV.Spec.Utf8.utf8 s = true) ss ->
+     KV.Spec.Utf8.utf8 (flat ss) = true) /\
+  (forall sep ss, KV.Spec.Utf8.utf8 sep = true ->
+     Forall (fun s => KV.Spec.Utf8.utf8 s = true) ss ->
+     KV.Spec.Utf8.utf8 (intercalate sep ss) = true).
+Proof. exact concat_valid_spec. Qed.
+Theorem C20_encode_utf8_valid_spec : forall c,
+  is_scalar c -> KV.Spec.Utf8.utf8 (encode_m c) = true.
+Proof. exact encode_valid_spec. Qed.
 
 (** hence the macros never panic and return exactly std's string: [elem_ok] = a valid
     [&str] or a scalar [char]; [sep_ok] likewise *)
@@ -231,6 +257,9 @@ Print Assumptions C20_from_iter_eq.
 Print Assumptions C20_concat_utf8.
 Print Assumptions C20_join_utf8.
 Print Assumptions C20_encode_utf8_valid.
+Print Assumptions C20_utf8_ok_is_utf8.
+Print Assumptions C20_concat_valid_spec.
+Print Assumptions C20_encode_utf8_valid_spec.
 Print Assumptions C20_concat_total.
 Print Assumptions C20_join_total.
 Print Assumptions C20_from_iter_total.
